@@ -14,9 +14,12 @@
  *                   8 ec_point_twin_mult_bp / ec_point_twin_mult
  *   C02_TINY_MASK   bit i set: run synthetic curve i      C02_REAL_MASK  same for built-in curve i
  *   C02_REAL_TABLE  path of the expected-points file
- *   C02_PAINT_STACK zero the stack below the caller before every library call (only used for the
- *                   configuration in which liblcb reads an uninitialised on-stack table, so that the
- *                   outcome is the same in the sharded run and in the single-case replay)
+ *
+ * Determinism: liblcb leaves bn_t digits above `digits` uninitialised by design and (defects found
+ * by this check) sometimes reads uninitialised stack memory.  So that a case behaves the same in the
+ * sharded run and in the one-case replay, every operand is filled with 0xA5 before it is initialised
+ * and the stack below the call is filled with 0xA5 before every library call (paint_*()); the call
+ * itself sits in a noinline wrapper so that the callee frames start inside the painted area.
  */
 #include <sys/param.h>
 #include <sys/types.h>
@@ -218,8 +221,8 @@ static ec_curve_t *CURVE;		/* heap: redzones around the (large) precomputed tabl
 static void
 bn_set_u64(bn_p bn, size_t bits, uint64_t v) {
 	size_t i;
+	memset(bn, 0xA5, sizeof(*bn));	/* only num[0 .. digits) is meaningful in a bn_t */
 	bn_init(bn, bits);
-	memset(bn->num, 0x00, sizeof(bn->num));
 	for (i = 0; 0 != v && i < bn->count; i ++) {
 		bn->num[i] = (bn_digit_t)v;
 #if BN_DIGIT_BIT_CNT >= 64
@@ -247,6 +250,7 @@ bn_get_u64(bn_p bn, int *ovf) {
 }
 static void
 pt_set(ec_point_p P, size_t bits, np_t v) {
+	memset(P, 0xA5, sizeof(*P));
 	bn_set_u64(&P->x, bits, v.inf ? 0 : v.x);
 	bn_set_u64(&P->y, bits, v.inf ? 0 : v.y);
 	P->infinity = v.inf ? 1 : 0;
@@ -263,17 +267,34 @@ pt_get(ec_point_p P, np_t *v) {
 	return (0 == ovf && x <= 0xffffffffu && y <= 0xffffffffu);
 }
 
-#ifdef C02_PAINT_STACK
-static void __attribute__((noinline))
-paint_stack(void) {
-	volatile char pad[3 * 512 * 1024];
-	memset((void *)pad, 0x00, sizeof(pad));
+#define PAINT_SMALL	(32 * 1024)
+#if EC_PF_UNKPT_MULT_ALGO != EC_PF_UNKPT_MULT_ALGO_BIN
+#define PAINT_DEEP	(sizeof(ec_pt_unkpt_mult_data_t) + 64 * 1024)	/* the unknown-point table lives on the stack */
+#else
+#define PAINT_DEEP	(64 * 1024)
+#endif
+#define NOINLINE __attribute__((noinline))
+static void NOINLINE
+paint_small(void) {
+	volatile char pad[PAINT_SMALL];
+	memset((void *)pad, 0xA5, sizeof(pad));
 	__asm__ volatile("" : : "r"(pad) : "memory");
 }
-#define PAINT()	paint_stack()
-#else
-#define PAINT()
-#endif
+static void NOINLINE
+paint_deep(void) {
+	volatile char pad[PAINT_DEEP];
+	memset((void *)pad, 0xA5, sizeof(pad));
+	__asm__ volatile("" : : "r"(pad) : "memory");
+}
+/* the calls under test */
+static int NOINLINE call_add(ec_point_p a, ec_point_p b) { return (ec_point_add(a, b, CURVE)); }
+static int NOINLINE call_sub(ec_point_p a, ec_point_p b) { return (ec_point_sub(a, b, CURVE)); }
+static int NOINLINE call_unk(ec_point_p p, bn_p d) { return (ec_point_unknown_pt_mult(p, d, CURVE)); }
+static int NOINLINE call_bp(bn_p d, ec_point_p r) { return (ec_point_mult_bp(d, CURVE, r)); }
+static int NOINLINE call_twin_bp(bn_p d1, ec_point_p q, bn_p d2, ec_point_p r) { return (ec_point_twin_mult_bp(d1, q, d2, CURVE, r)); }
+static int NOINLINE call_twin(ec_point_p a, bn_p d1, ec_point_p q, bn_p d2, ec_point_p r) { return (ec_point_twin_mult(a, d1, q, d2, CURVE, r)); }
+static int NOINLINE call_setup(ec_curve_str_p cs) { return (ecdsa_curve_from_str(cs, CURVE)); }
+static int NOINLINE call_validate(int *w) { return (ec_curve_validate(CURVE, w)); }
 
 /* ------------------------------------------------------------------ case description */
 static struct {
@@ -384,21 +405,21 @@ do_add_pair(np_t P, np_t Q, size_t bits) {
 	if (vh_begin(TGT_ADD)) {
 		cur.op = "P+Q";
 		pt_set(&a, bits, P); pt_set(&b, bits, Q);
-		PAINT();
-		rc = ec_point_add(&a, &b, CURVE);
+		paint_small();
+		rc = call_add(&a, &b);
 		tiny_check(rc, &a, n_add(P, Q), (!P.inf && !Q.inf));
 	}
 	if (vh_begin(TGT_SUB)) {
 		cur.op = "P-Q";
 		pt_set(&a, bits, P); pt_set(&b, bits, Q);
-		PAINT();
-		rc = ec_point_sub(&a, &b, CURVE);
+		paint_small();
+		rc = call_sub(&a, &b);
 		tiny_check(rc, &a, n_add(P, n_neg(Q)), (!P.inf && !Q.inf));
 	}
 }
 
 static void
-tiny_add_sub_dbl(void) {
+tiny_add_sub_dbl(int curve_idx) {
 	uint32_t i, j, step;
 	int a;
 	size_t bits = EC_CURVE_CALC_BITS_DBL(CURVE);	/* operand capacity used by ec_self_test() */
@@ -410,7 +431,7 @@ tiny_add_sub_dbl(void) {
 			for (j = 0; j < GRP_N; j ++)
 				do_add_pair(GRP[i], GRP[j], bits);
 	} else {			/* alphabet x group in both operand positions */
-		step = vh_thorough ? 1 : 61;
+		step = vh_thorough ? ((8 == curve_idx || 9 == curve_idx) ? 1 : 7) : 61;
 		for (a = 0; a < PA_N; a ++) {
 			for (j = 0; j < (uint32_t)PA_N; j ++)
 				do_add_pair(PA[a], PA[j], bits);
@@ -426,8 +447,8 @@ tiny_add_sub_dbl(void) {
 			continue;
 		cur.op = "P+P";
 		pt_set(&p, bits, GRP[i]);
-		PAINT();
-		rc = ec_point_add(&p, &p, CURVE);
+		paint_small();
+		rc = call_add(&p, &p);
 		tiny_check(rc, &p, n_add(GRP[i], GRP[i]), !GRP[i].inf);
 	}
 }
@@ -445,8 +466,8 @@ unk_one(np_t P, uint32_t k, const np_t *mult) {
 	pt_set(&p, CURVE->m, P);	/* capacity used by ecdsa_dh() */
 	bn_set_u64(&d, EC_CURVE_CALC_BITS_DBL(CURVE), k);
 	if (comb_eligible(&d)) st_comb_eligible_unk ++;
-	PAINT();
-	rc = ec_point_unknown_pt_mult(&p, &d, CURVE);
+	paint_deep();
+	rc = call_unk(&p, &d);
 	tiny_check(rc, &p, mult[k], (!P.inf && k > 1));
 }
 
@@ -505,8 +526,8 @@ bp_one(uint32_t k, const np_t *mult) {
 	r.infinity = 0;
 	bn_set_u64(&d, EC_CURVE_CALC_BITS_DBL(CURVE), k);
 	if (comb_eligible(&d)) st_comb_eligible_bp ++;
-	PAINT();
-	rc = ec_point_mult_bp(&d, CURVE, &r);
+	paint_small();
+	rc = call_bp(&d, &r);
 	tiny_check(rc, &r, mult[k], (k > 1));
 }
 
@@ -546,12 +567,12 @@ twin_one(int generic, np_t A, uint32_t k1, np_t Q, uint32_t k2, np_t want) {
 	r.infinity = 0;
 	bn_set_u64(&d1, EC_CURVE_CALC_BITS_DBL(CURVE), k1);
 	bn_set_u64(&d2, EC_CURVE_CALC_BITS_DBL(CURVE), k2);
-	PAINT();
+	paint_deep();
 	if (generic) {
 		pt_set(&a, CURVE->m, A);
-		rc = ec_point_twin_mult(&a, &d1, &q, &d2, CURVE, &r);
+		rc = call_twin(&a, &d1, &q, &d2, &r);
 	} else {
-		rc = ec_point_twin_mult_bp(&d1, &q, &d2, CURVE, &r);
+		rc = call_twin_bp(&d1, &q, &d2, &r);
 	}
 	tiny_check(rc, &r, want, (k1 > 1 && k2 > 1 && !Q.inf));
 }
@@ -624,8 +645,8 @@ tiny_all(void) {
 		cur.curve = t->name; cur.P = cur.Q = NP_O; cur.k1 = cur.k2 = 0; cur.op = "setup";
 		c02_tiny_curve_to_str(t, &cs);
 		owns = vh_begin(TGT_SETUP);	/* every shard builds the curve, one owns the case */
-		PAINT();
-		rc = ecdsa_curve_from_str(&cs.str, CURVE);
+		paint_deep();
+		rc = call_setup(&cs.str);
 		if (0 != rc) {
 			if (owns)
 				vh_fail("rc", "returned %d for a valid curve (table precomputation included)", rc);
@@ -634,7 +655,7 @@ tiny_all(void) {
 		if (owns)
 			vh_nontrivial();
 		smallest = (0 == strcmp(t->name, "t8_gen_h4_cyc") || 0 == strcmp(t->name, "t8_m3_h4_v4"));
-		if (C02_TARGETS & T_ADD) tiny_add_sub_dbl();
+		if (C02_TARGETS & T_ADD) tiny_add_sub_dbl((int)i);
 		if (C02_TARGETS & T_UNK) tiny_unk();
 		if (C02_TARGETS & T_BP) tiny_bp((int)i);
 		if (C02_TARGETS & T_TWIN) tiny_twin(smallest);
@@ -687,6 +708,7 @@ skip0(const char *s) {
 static int
 real_pt_load(ec_point_p P, size_t bits, const char *x, const char *y) {
 	int rc;
+	memset(P, 0xA5, sizeof(*P));
 	if (0 != (rc = ec_point_init(P, bits))) return (rc);
 	if ('-' == x[0]) { P->infinity = 1; return (0); }
 	if (0 != (rc = bn_import_be_hex(&P->x, (const uint8_t *)x, strlen(x)))) return (rc);
@@ -695,6 +717,7 @@ real_pt_load(ec_point_p P, size_t bits, const char *x, const char *y) {
 static int
 real_k_load(bn_p k, const char *s) {
 	int rc;
+	memset(k, 0xA5, sizeof(*k));
 	if (0 != (rc = bn_init(k, EC_CURVE_CALC_BITS_DBL(CURVE)))) return (rc);
 	return (bn_import_be_hex(k, (const uint8_t *)s, strlen(s)));
 }
@@ -718,7 +741,7 @@ real_check(int rc, ec_point_p R, const char *wx, const char *wy, int interesting
 	if (interesting) vh_nontrivial();
 }
 
-static char real_desc[512];
+static char real_desc[900];
 static void desc_real(char *b, size_t n) { snprintf(b, n, "%s", real_desc); }
 
 static void
@@ -751,8 +774,8 @@ real_all(void) {
 			cs = &ec_curve_str[idx];
 			snprintf(real_desc, sizeof(real_desc), "%s curve=%s setup", CFG_TEXT, rf[2]);
 			owns = vh_begin(TGT_SETUP);
-			PAINT();
-			rc = ecdsa_curve_from_str(cs, CURVE);
+			paint_deep();
+			rc = call_setup(cs);
 			if (0 != rc) {
 				if (owns)
 					vh_fail("rc", "returned %d for a built-in curve (table precomputation included)", rc);
@@ -766,8 +789,8 @@ real_all(void) {
 			if (vh_begin(TGT_VALIDATE)) {
 				warn = 0;
 				snprintf(real_desc, sizeof(real_desc), "%s curve=%s validate", CFG_TEXT, rf[2]);
-				PAINT();
-				rc = ec_curve_validate(CURVE, &warn);
+				paint_deep();
+				rc = call_validate(&warn);
 				/* not part of the property: recorded, never a violation */
 				if (0 != rc) printf("NOTE\tec_curve_validate(%s) returned %d in this configuration\n", rf[2], rc);
 				else vh_nontrivial();
@@ -794,10 +817,10 @@ real_all(void) {
 				real_desc[strcspn(real_desc, "\n")] = 0;
 				real_pt_load(&a, bits_dbl, px[ip], py[ip]);
 				real_pt_load(&b, bits_dbl, px[iq], py[iq]);
-				PAINT();
-				if ('a' == rf[1][0]) rc = ec_point_add(&a, &b, CURVE);
-				else if ('s' == rf[1][0]) rc = ec_point_sub(&a, &b, CURVE);
-				else rc = ec_point_add(&a, &a, CURVE);
+				paint_small();
+				if ('a' == rf[1][0]) rc = call_add(&a, &b);
+				else if ('s' == rf[1][0]) rc = call_sub(&a, &b);
+				else rc = call_add(&a, &a);
 				real_check(rc, &a, rf[4], rf[5], (0 != ip && (0 != iq || 'd' == rf[1][0])));
 			}
 			break;
@@ -810,8 +833,8 @@ real_all(void) {
 			real_pt_load(&a, CURVE->m, px[i], py[i]);
 			real_k_load(&k1, rf[2]);
 			if (comb_eligible(&k1)) st_comb_eligible_unk ++;
-			PAINT();
-			rc = ec_point_unknown_pt_mult(&a, &k1, CURVE);
+			paint_deep();
+			rc = call_unk(&a, &k1);
 			real_check(rc, &a, rf[3], rf[4], (0 != i && k1.digits > 0 && !bn_is_one(&k1)));
 			break;
 		case 'B':
@@ -819,11 +842,11 @@ real_all(void) {
 			if (!vh_begin(TGT_BP)) break;
 			snprintf(real_desc, sizeof(real_desc), "%s curve=%s %.300s", CFG_TEXT, cs->name, keep);
 			real_desc[strcspn(real_desc, "\n")] = 0;
-			ec_point_init(&r, CURVE->m);
+			real_pt_load(&r, CURVE->m, "0", "0");
 			real_k_load(&k1, rf[1]);
 			if (comb_eligible(&k1)) st_comb_eligible_bp ++;
-			PAINT();
-			rc = ec_point_mult_bp(&k1, CURVE, &r);
+			paint_small();
+			rc = call_bp(&k1, &r);
 			real_check(rc, &r, rf[2], rf[3], (k1.digits > 0 && !bn_is_one(&k1)));
 			break;
 		case 'T':
@@ -833,10 +856,10 @@ real_all(void) {
 			real_desc[strcspn(real_desc, "\n")] = 0;
 			i = atoi(rf[2]);
 			real_pt_load(&b, CURVE->m, px[i], py[i]);
-			ec_point_init(&r, CURVE->m);
+			real_pt_load(&r, CURVE->m, "0", "0");
 			real_k_load(&k1, rf[1]); real_k_load(&k2, rf[3]);
-			PAINT();
-			rc = ec_point_twin_mult_bp(&k1, &b, &k2, CURVE, &r);
+			paint_deep();
+			rc = call_twin_bp(&k1, &b, &k2, &r);
 			real_check(rc, &r, rf[4], rf[5], (0 != i && k1.digits > 0 && k2.digits > 0));
 			break;
 		case 'W':
@@ -847,10 +870,10 @@ real_all(void) {
 			real_pt_load(&a, CURVE->m, px[atoi(rf[1])], py[atoi(rf[1])]);
 			i = atoi(rf[3]);
 			real_pt_load(&b, CURVE->m, px[i], py[i]);
-			ec_point_init(&r, CURVE->m);
+			real_pt_load(&r, CURVE->m, "0", "0");
 			real_k_load(&k1, rf[2]); real_k_load(&k2, rf[4]);
-			PAINT();
-			rc = ec_point_twin_mult(&a, &k1, &b, &k2, CURVE, &r);
+			paint_deep();
+			rc = call_twin(&a, &k1, &b, &k2, &r);
 			real_check(rc, &r, rf[5], rf[6], (0 != i && k1.digits > 0 && k2.digits > 0));
 			break;
 		default:
